@@ -319,7 +319,9 @@ LIFE = [
 ]
 
 SPAWN_RULES = [ReplaceBlocksNumbered("R15-task-bodies", r"tokio::spawn\(", "self.spawn_task({k})", count=2, note="the two task bodies are verified separately (task_* obligations)"),
-               Rule("R17-match-zero", r"match self\.futures_timeout \{\s*Duration::ZERO => \{", "if self.futures_timeout.is_zero() { {", count=1, note="`match d { Duration::ZERO => A, _ => B }` -> `if d.is_zero() A else B`"),
+               Rule("R17-match-zero", r"match (self\.futures_timeout(?:\s*\.\s*\w+\(\))?) \{\s*(Duration::ZERO|0) => \{",
+                    lambda m: ("if " + m.group(1) + ".is_zero() { {") if m.group(2) == "Duration::ZERO" else ("if " + m.group(1) + " == 0 { {"), count=1,
+                    note="`match d { Duration::ZERO => A, _ => B }` -> `if d.is_zero() A else B` (a scrutinee converted to a unit, `d.as_millis()` .. with pattern 0, becomes `if d.as_millis() == 0`)"),
                Rule("R17-match-else", r"\},\s*_ => \{", "} } else { {", count=1),
                Rule("R17-match-close", r"\},\s*\}\s*$", "} }", count=1)]
 for _name in ("spawn_executor", "spawn_futures_executor"):
